@@ -46,7 +46,7 @@ def listDraw : List Line := [
   ⟨2, .assign, (.var "v7"), (.var "v3")⟩,
   ⟨1, .elseS, .none, .none⟩,
   ⟨2, .assign, (.var "v7"), (.var "v2")⟩,
-  ⟨1, .exprS, (.arg (.arg (.call (.var "v0.Println")) (.var "v5")) (.arg (.arg (.call (.lit "vaxis.Segment{}")) (.pair (.var "Text") (.var "v6"))) (.pair (.var "Style") (.var "v7")))), .none⟩]
+  ⟨1, .exprS, (.arg (.arg (.call (.var "v0.Println")) (.var "v5")) (.arg (.arg (.call (.lit "vaxis.Segment{}")) (.pair (.var "Style") (.var "v7"))) (.pair (.var "Text") (.var "v6")))), .none⟩]
 
 /-- `List.Down` -/
 def listDown : List Line := [
